@@ -28,7 +28,22 @@ def scenarios(quick):
     return out
 
 
+def model_scenarios():
+    out = []
+    for c in (brk(1, 1, 2), brk(1, 1, 2, sthr=1, scap=2)):
+        for pat in ("FF", "FS"):
+            fns = [[fn(1, "R1" if p == "S" else "R0", None if p == "S" else "E1", True)] for p in pat]
+            out.append(scenario([cb("c", c)], fns, [start(1, 0), start(2, 3)]))          # second execution is the half-open trial
+            out.append(scenario([cb("c", c)], fns, [start(1, 0), start(2, 0)]))          # racing the failure that opens it
+        fns = [[fn(1, "R0", "E1", True)], [fn(3, "R1", None, True)]]
+        out.append(scenario([cb("c", c)], fns, [start(1, 0), start(2, 3), env("CtxCancel", 4, 2)]))   # a cancelled trial
+    return out
+
+
 def run(ctx):
+    import tmc
+    tscen.ASYNC_FIX = tscen.async_fix_in_code()
+    tmc.model_check(ctx, "cb", model_scenarios(), ["MC_NoStuckThread", "MC_AllReturn", "MC_C04", "MC_TrialPermits"])
     scs = scenarios(ctx.tier == "quick")
     if ctx.tier == "quick":      # several concurrent executions make validation expensive: every 6th scenario, offset by the seed
         scs = scs[ctx.seed % 6::6]
